@@ -165,6 +165,9 @@ impl SemanticState {
             }
         }
 
+        if self.modules.contains_key(path) && !path.is_empty() {
+            anyhow::bail!("module `{path}` has already been added");
+        }
         self.modules.insert(
             path.clone(),
             Module::new(
